@@ -265,10 +265,11 @@ def is_sym(v):
 
 
 def _frac(s):
+    """Exact value of the IEEE double a literal denotes (the extractor prints the shortest round-tripping decimal)."""
     try:
-        return Fraction(s)
-    except Exception:
         return Fraction(float(s))
+    except (ValueError, OverflowError):
+        return Fraction(s)
 
 
 class Interp:
@@ -281,6 +282,9 @@ class Interp:
         self.max_steps = max_steps
         self.events = []
         self.depth = 0
+        self.cur_line = 0
+        self.bounded = set()    # symbols assumed far smaller in magnitude than DBL_MAX
+        self.positive = set()   # symbols assumed strictly positive (weights, scales)
         self.subs = []          # linear equalities learnt on this path: (variable, replacement polynomial)
         self.globals = globals or {}    # qualified name -> Box: symbolic / overridden globals and static members
 
@@ -309,6 +313,16 @@ class Interp:
 
     def _atom(self, p):
         s, canon = p.canonical()
+        if self.bounded and p.vars() <= self.bounded:
+            c0 = p.const_value()
+            if abs(c0) > 10 ** 200 and all(abs(c) < 10 ** 50 for m, c in p.t.items() if m):
+                return 1 if c0 > 0 else -1      # a bounded quantity against the DBL_MAX sentinel
+        if self.positive and canon.vars() <= self.positive:
+            cs = list(canon.t.values())
+            if all(c > 0 for c in cs):
+                return s
+            if all(c < 0 for c in cs):
+                return -s
         v = self.oracle.choose(("sign", canon.key()), (-1, 0, 1), repr(canon))
         if v == 0 and canon.degree() == 1:
             # the path now knows a linear equality: eliminate one variable from later queries so that dependent
@@ -463,6 +477,10 @@ class Interp:
             rv = None
         except _Return as r:
             rv = r.v
+        except Unsupported as e:
+            if "[in " not in str(e):
+                raise Unsupported("%s [in %s, statement near line %s]" % (e, fn.q, self.cur_line))
+            raise
         finally:
             self.depth -= 1
         return rv
@@ -508,6 +526,7 @@ class Interp:
     def ex(self, n, env):
         if n is None:
             return
+        self.cur_line = n.get("l", self.cur_line)
         self.steps += 1
         if self.steps > self.max_steps:
             raise Unsupported("step limit exceeded")
@@ -665,6 +684,8 @@ class Interp:
                 o = self.ev(base, env)
             else:
                 o = self.lv(base, env).get() if _strip(base).get("lv") else self.ev(base, env)
+            if o is None:
+                raise AssertFail("null pointer dereference (line %s)" % n.get("l"))
             if not isinstance(o, Obj):
                 raise Unsupported("member access on %r" % (o,))
             return FieldRef(o, n["ref"].split("::")[-1])
@@ -1365,6 +1386,18 @@ class Interp:
             if s < 0:
                 return r_neg(v) if is_sym(v) else -v
             return v
+        if "numeric_limits<" in cname:
+            if nm == "epsilon":
+                return Fraction(1, 2 ** 52)
+            if nm == "max":
+                if "numeric_limits<double>" in cname or "numeric_limits<float>" in cname:
+                    return Fraction(2) ** 1023 * (2 - Fraction(1, 2 ** 52))
+                if "unsigned" in cname:
+                    return 2 ** 32 - 1
+                return 2 ** 31 - 1
+            if nm == "infinity":
+                return Fraction(10) ** 400
+            raise Unsupported("numeric_limits member %s" % cname)
         if nm in ("min", "max"):
             ra = self.bind_ref(args[0], env)
             rb = self.bind_ref(args[1], env)
